@@ -38,7 +38,7 @@ func init() {
 		Level: "exploration",
 		Rule: "Each case is one history on the real app (1-2 EVM chains, 4-6 validators): natural bring-up (initial compass upload attested), then a seed-determined list of attestation rounds. " +
 			"A round = one queued message (UploadSmartContract, UpdateValset, SubmitLogicCall via scheduler job, UploadUserSmartContract, CompassHandover after a governance compass upgrade) driven through estimates, signatures, relay and evidence by >= 2/3 of the shares, " +
-			"with a proof transaction of a chosen class: faithful (all / shorter prefix of signatures, late signatures, EIP-1559, older valset), one or several corruptions out of a catalogue of 33 field- and byte-level corruptions, receipt status 0 / pre-Byzantium root / missing receipt, " +
+			"with a proof transaction of a chosen class: faithful (all / shorter prefix of signatures, late signatures, EIP-1559, older valset), one or several corruptions out of a catalogue of 36 field- and byte-level corruptions, receipt status 0 / pre-Byzantium root / missing receipt, " +
 			"a transaction accepted earlier (same call data for a second message, other message, same block for two messages), relayer naming a non-existent valset. " +
 			"A round is distinct & non-trivial by (action, call-data class, receipt class, reuse class, signatures used/collected, late signatures, outcome) and only counted when the attestation code actually ran on it. " +
 			"'evaluations' = accept/reject decisions compared with the reference verdict + success-effect events attributed.",
@@ -50,7 +50,7 @@ func init() {
 		Cases:       cases,
 		Run:         run,
 		MinCounters: []string{"rounds_attested", "accepted_valid_proofs", "rejected_invalid_proofs", "effects_after_valid_proof", "accepted/" + actUpload, "accepted/" + actValset, "accepted/" + actSLC, "accepted/" + actUser, "accepted/" + actHandover},
-		Workers:     16, TimeoutS: 600,
+		Workers:     16, TimeoutS: 1500,
 	})
 }
 
